@@ -36,6 +36,7 @@ C05_QUICK = ([_h(f"c05::c05_quantize__{t}") for t in I8_TYPES] + [_h(f"c05::c05_
              + [_h(f"c05::c05_layered2__{t}", bound="check degree 2, |variable LLR| <= 508") for t in I8_TYPES]
              + [_h(f"c05::c05_layered3__{t}", bound="check degree 3, |variable LLR| <= 508") for t in I8_TYPES])
 C05_THOROUGH = ([h for h in C05_QUICK if "var8" not in h["harness"]]
+                + [_h(f"c05::c05_layered4__{t}", timeout=2400, bound="check degree 4, |variable LLR| <= 508") for t in I8_TYPES]
                 + [_h(f"c05::c05_var32__{t}", timeout=3600, mem_gb=8, bound="degrees 1..=32") for t in I8_TYPES]
                 + [_h(f"c05::c05_var100__{t}", timeout=7200, mem_gb=14, cap_gb=40,
                       bound="degrees 1..=100 for the four Jones x degree-one shapes of the shared macro body (1..=200 did not finish)")
@@ -45,7 +46,8 @@ C04_QUICK = ([_h(f"c04::c04_table__{t}") for t in I8_TYPES] + [_h(f"c04::c04_che
 FLOAT_TYPES = ["Phif64", "Phif32", "Tanhf64", "Tanhf32", "Minstarapproxf64", "Minstarapproxf32", "Aminstarf64", "Aminstarf32"]
 C04_QUICK = C04_QUICK + [_h(f"c04f::c04f_check{d}__{t}", bound="float type: count" + ("" if t.startswith("Aminstar") else ", sign") + (", magnitude" if t.startswith("Minstar") else "") + " under axiomatised tanh/ln/atanh/exp/ln_1p, |x| <= 1e30")
                          for t in FLOAT_TYPES for d in (2, 3)]
-C04_THOROUGH = C04_QUICK + [_h(f"c04::c04_check4__{t}", bound="degree 4 (generic clauses only)", timeout=1800) for t in I8_TYPES]
+C04_THOROUGH = C04_QUICK + [_h(f"c04::c04_check{d}__{t}", bound=f"degree {d} (generic clauses: count, sign, magnitude bound, hard limiting)", timeout=2400)
+                            for t in I8_TYPES for d in (4, 5, 6, 8)]
 C18_QUICK = ([_h(f"c18::c18_print_parse__{n}", mem_gb=4) for n in NAMES] + [_h(f"c18::c18_clap__{n}", mem_gb=3) for n in NAMES]
              + [_h(f"c18::c18_type__{n}", mem_gb=4) for n in NAMES] + [_h("c18::c18_reject_nonmembers_fromstr", timeout=1800, mem_gb=8)])
 C15_IL_QUICK = ["2x3", "4x2"]
@@ -136,11 +138,13 @@ PROPS = {
         "title": "CCSDS AR4JA parity-check matrices conform to CCSDS 131.0-B",
         "verus": [
             {"unit": "ccsds", "template": "ccsds/unit.rs.in", "rlimit": 800, "canary": True, "timeout": 2400, "threads": 8},
+            {"unit": "ccsds_c2", "template": "ccsds/unit_c2.rs.in", "rlimit": 200, "canary": True, "timeout": 1200},
         ],
         "kani": {"quick": [], "thorough": []},
         "witness": "c07",
         "assumptions": [
-            "Blue Book Table 7-2 (M) and theta_k as transcribed in specs/ccsds/unit.rs.in",
+            "Blue Book Table 7-2 (M), theta_k and Table 7-1 (C2 circulant offsets) as transcribed in specs/ccsds/",
+            "N6 normalisation of the two `for (i, x) in E.iter().enumerate()` loops of C2Code::h into index loops",
             "phi_k(j, M) pinned to the tree the check was written against (specs/ccsds/phi_pinned.rs.in), not independently transcribed",
             "SparseMatrix::new trusted (external_body)",
             "usize is 64-bit",
